@@ -470,6 +470,14 @@ theorem C11_panic_model_refines {σ : Type} (V : MsgValidator σ) (cc : CtxCfg) 
   obtain ⟨r, hr, _, h3⟩ := encodeVG_spec V cc false R o none ⟨e, false⟩ f hf ho hs
   rw [hr, h3 rfl rfl rfl]
 
+/-- … AND WITH CANCELLATION POINTS: on every contract-abiding schedule, for every context (cancelled at any poll or never) and every
+encoder state inside the invariant — also one left on `io.Discard` — the guarded `Encode` / `EncodeWithContext` returns exactly
+what `encodeCtxV` (the function the driver runs for `m=c`) says. -/
+theorem C11_panic_model_refines_ctx {σ : Type} (V : MsgValidator σ) (cc : CtxCfg) (F : Faults) (o : Opts) (ho : 0 < o.lruCap)
+    (c : Ctx) (x : EncC) (f : FitIn) (hn : HdrNorm f.hdr) (hs : x.e.Safe) :
+    encodeVG V cc false (Sched.ofFaults F) o c x f = .ret (encodeCtxV V cc F o c x f) :=
+  encodeVG_ctx V cc F o c x f hn ho hs
+
 namespace Witness
 /-- an encoder whose LRU has no slot (`localMessageType + 1 = 0` cannot be configured) -/
 def encNoSlot : Enc := { w := { kind := .at, size := 0, d := ⟨[], 0, []⟩ }, es := { lru := Lru.empty 0, tsRef := 0, tsLast := 0 } }
